@@ -2,7 +2,7 @@
    admissible set order (the one CPython produces for {8, 1}). *)
 From Coq Require Import List Arith Bool Lia Permutation Sorted ZArith.
 Import ListNotations.
-From QV Require Import Found.Base Found.Lemmas Model.GSP Model.GateSim Proofs.GSPLists Proofs.GSPSem.
+From QV Require Import Found.Base Found.Lemmas Model.GSP Model.GateSim Proofs.GSPLists Proofs.GSPSem Proofs.GSPAny.
 
 Lemma ord_sorted_asc : ord_asc ord_sorted.
 Proof.
@@ -22,14 +22,14 @@ Theorem gsp_correct (l : list (list nat)) c inds : gsp_top ord_sorted l = Some (
   forall psi : state O, sem (den O G (fplace inds c)) psi = sem (den O G (number l)) psi.
 Proof.
   intros H psi. unfold gsp_top in H.
-  exact (proj2 (gsp_sound O Kring G ord_sorted ord_sorted_asc _ _ _ H) psi).
+  exact (gsp_any_sound O Kring G ord_sorted ord_sorted_asc _ _ _ H psi).
 Qed.
 
 (* the same for any oracle that enumerates ascending *)
 Theorem gsp_correct_asc ord (l : list (list nat)) c inds : ord_asc ord -> gsp_top ord l = Some (c, inds) ->
   forall psi : state O, sem (den O G (fplace inds c)) psi = sem (den O G (number l)) psi.
 Proof.
-  intros Ho H psi. unfold gsp_top in H. exact (proj2 (gsp_sound O Kring G ord Ho _ _ _ H) psi).
+  intros Ho H psi. unfold gsp_top in H. exact (gsp_any_sound O Kring G ord Ho _ _ _ H psi).
 Qed.
 End Correct.
 
